@@ -255,9 +255,26 @@ func genCase(t *rapid.T) Case {
 	for _, m := range c.Mods {
 		st(m.Nodes, "")
 	}
+	shared := false
+	if m0 := c.Mods[0]; m0.BelongsTo == "" && g.Chance(1, 3, "sharedgrouping") {
+		// a grouping whose nodes have no body, used twice in its own module; one of the two copies is augmented, the
+		// other refined: what is added to one copy is not part of the other
+		shared = true
+		str := &sg.TypeSpec{Name: "string"}
+		m0.Groupings = append(m0.Groupings, &sg.Grouping{Name: "shg", Kids: []*sg.Node{{Kind: "container", Name: "shc"}, {Kind: "container", Name: "shp"},
+			{Kind: "choice", Name: "shch", Kids: []*sg.Node{{Kind: "case", Name: "shcs"}, {Kind: "leaf", Name: "shl", Type: str}}}}})
+		m0.Nodes = append(m0.Nodes, &sg.Node{Kind: "container", Name: "sha", Kids: []*sg.Node{{Kind: "uses", Name: "shg"}}},
+			&sg.Node{Kind: "container", Name: "shb", Kids: []*sg.Node{{Kind: "uses", Name: "shg", Refines: []sg.Refine{{Target: "shp", Stmts: []string{`presence "refined";`}}},
+				Augments: []*sg.Augment{{Target: "shch/shcs", Kids: []*sg.Node{{Kind: "leaf", Name: "incase", Type: str}}}}}}})
+		m0.Augments = append(m0.Augments, &sg.Augment{Target: "/" + m0.Prefix + ":sha/" + m0.Prefix + ":shc", Kids: []*sg.Node{{Kind: "leaf", Name: "extra", Type: str}}})
+	}
 	w := newWorld(c.Mods)
 	if w == nil {
 		return c
+	}
+	if shared {
+		c.Paths = append(c.Paths, []string{"sha", "shc", "extra", "v"}, []string{"shb", "shc", "extra", "v"}, []string{"sha", "shp"}, []string{"shb", "shp"},
+			[]string{"shb", "incase", "v"}, []string{"sha", "incase", "v"}, []string{"sha", "shc"}, []string{"shb", "shc"})
 	}
 	np := 6
 	for i := 0; i < np; i++ {
